@@ -29,7 +29,8 @@ ENGINES = ["hypothesis"]
 ASSUMPTIONS = [
     "brackets and marks stand on bar lines; da capo / dal segno arrangements have their marks on bar lines outside the repeat and ending brackets (section boundaries, plain sections, start, end); marks that cannot jump on their own (fine, segno, coda, to coda without da capo / dal segno) also stand inside brackets and must leave the unfolding unchanged; notes do not cross bar lines; repeats nest properly and inner repeats neither start nor end on the bar line of the enclosing one; a to-coda mark comes with a coda that does not start before it, a dal segno with a segno that stands before it, each mark kind at most once",
     "every unfolding call gets a freshly built part (dependence on earlier calls on the same object belongs to C20)",
-    "exact maximal/minimal bar sequences are demanded for structures of repeats and endings only; with navigation marks and for the single variants of iter_unfolded_parts only the permissive path predicate (DESIGN 6) is demanded",
+    "exact maximal/minimal bar sequences are demanded whenever no da capo / dal segno is present (repeats and endings, possibly with marks that stay inert); with a da capo / dal segno and for the single variants of iter_unfolded_parts only the permissive path predicate (DESIGN 6) is demanded: passing a fine or to-coda mark after the jump, or never taking the jump, is not judged",
+    "the 'all variants' policies are only drawn for structures whose estimated number of paths is <= 1500 (gen/c09_repeats.estimate_paths); at most the first 8 variants of a call are judged part by part; a 30 s watchdog guards against a non-terminating enumeration",
     "a reference (tie, slur, tuplet) that crosses a segment boundary may be None in the copy; inside one segment visit it must connect the copies",
     "time/key signature and clef in force at a revisited segment are not judged (the statement lists notes, length, brackets, references); the divisions in force are (they decide the duration of a note)",
     "ids of rests are not judged under update_ids (the statement speaks of notes)",
@@ -481,6 +482,8 @@ def run_policy(o, case, spec, part):
             sc = S.Score(partlist=[part], id="sc")
             res = call(S.unfold_part_maximal, sc, uid, il)
             new = res.parts[0] if isinstance(res, S.Score) and len(res.parts) == 1 else res
+            if res is sc or len(sc.parts) != 1 or sc.parts[0] is not part:
+                o.add("original-score-modified", policy=pol)
         else:
             new = call(S.unfold_part_maximal, part, uid, il)
         out.append(("maximal", new, emax, None, uid))
@@ -489,6 +492,8 @@ def run_policy(o, case, spec, part):
             sc = S.Score(partlist=[part], id="sc")
             res = call(S.unfold_part_minimal, sc)
             new = res.parts[0] if isinstance(res, S.Score) and len(res.parts) == 1 else res
+            if res is sc or len(sc.parts) != 1 or sc.parts[0] is not part:
+                o.add("original-score-modified", policy=pol)
         else:
             new = call(S.unfold_part_minimal, part)
         out.append(("minimal", new, emin, None, False))
@@ -766,7 +771,7 @@ def oracle_equal(spec):
                     call(update_note_ids_after_unfolding, p)
     finally:
         after, keep2 = snapshot(part)
-        compare_snapshots(o, before, after, pol)
+        compare_snapshots(o, before, after, pol + ("(Score)" if spec.get("as_score") and pol in ("maximal", "minimal") else ""))
     if len(news) != 1:
         o.add("part-without-repeats-has-not-exactly-one-unfolding", n=len(news))
     for new in news[:2]:
@@ -912,7 +917,7 @@ PREMATURE = ("invalid-path:path-stops-at-fine-before-any-da-capo-or-dal-segno", 
 ENDLESS = ("sut-raised:IndexError@score.py:list_of_destinations_from_last_segment", "sut-raised:RecursionError@score.py")
 
 KNOWN = {
-    "segments-left-in-argument": lambda spec, d: d.kind == "original-gained-segment-objects",
+    "segments-left-in-argument": lambda spec, d: d.kind == "original-gained-segment-objects" and not str(d["detail"].get("where", "")).endswith("(Score)"),
     "slur-copy-unregistered-at-start": lambda spec, d: _has(spec, "slurs") and d.kind in ("slur-copy-not-listed-at-its-start", "unfolding-without-repeats-not-equal:slurs"),
     "tuplet-copy-start-end-cleared": lambda spec, d: _has(spec, "tuplets") and d.kind in ("listed-object-start-end-attribute-wrong:Tuplet", "unfolding-without-repeats-not-equal:tuplets", "unfolding-without-repeats-not-equal:tuplets-ending"),
     "shallow-copy-shares-note-bracket-lists": lambda spec, d: (_has(spec, "slurs") or _has(spec, "tuplets")) and d.kind in ("note-slur-tuplet-list-corrupt", "original-modified:note-slur-tuplet-lists"),
@@ -922,7 +927,7 @@ KNOWN = {
     "clef-octave-change-ignored-when-dropping-repeated-clefs": lambda spec, d: d.kind == "unfolding-without-repeats-not-equal:clefs" and any(
         a[1:4] == b[1:4] and a[4] != b[4] for a in spec["part"]["clefs"] for b in spec["part"]["clefs"]),
     "leap-labels-lost-endless-enumeration": lambda spec, d: d.kind.startswith(ENDLESS) and "structure" in spec and spec["policy"] not in ("maximal", "paths_max") and _unrecognised_real_leap(spec),
-    "ending-split-by-mark-has-no-destination": lambda spec, d: (d.kind.startswith(ENDLESS) or d.kind == "no-unfolding-returned" or d.kind.startswith("wrong-bar-sequence:")
+    "ending-split-by-mark-has-no-destination": lambda spec, d: (d.kind.startswith(ENDLESS) or d.kind in ("no-unfolding-returned", "get-paths-returned-nothing") or d.kind.startswith("wrong-bar-sequence:")
                                                                or d.kind.startswith("invalid-path:")) and "structure" in spec and _ending_split(spec),
     "mark-between-endings-adds-fall-through": lambda spec, d: d.kind.startswith("wrong-bar-sequence:") and "structure" in spec and _mark_between_endings(spec),
     "repeat-or-succession-taken-for-leap": lambda spec, d: (d.kind in PREMATURE or d.kind == ENDLESS[0] or d.kind.startswith("wrong-bar-sequence:")) and "structure" in spec and _false_leap_edge(spec),
@@ -935,7 +940,7 @@ SUBCHECKS = [
         "repeats_and_endings",
         oracle,
         strategy=strat_repeats,
-        budget={"quick": int(__import__("os").environ.get("C09_N", "50")), "thorough": 2000},
+        budget={"quick": 100, "thorough": 2000},
         known=KNOWN,
         rule="structures drawn from the grammar plain | simple repeat | repeat with endings ([1][2], [1,2][3], [1][2][3], [1][2,3], [1,2,3][4]) | nested repeat, x policy (maximal, minimal, iter_unfolded_parts, make_score_variants, get_paths+new_part_from_path) x update_ids x ignore_leaps x Part/Score argument; exact maximal/minimal bar sequence from the independent interpreter; non-trivial = >= 1 repeat with endings or >= 2 repeats",
         floors={"volta-starting-at-bar-1": 0.02, "three-or-more-endings": 0.03, "tie-across-segment-boundary": 0.05, "nested": 0.05},
@@ -944,7 +949,7 @@ SUBCHECKS = [
         "navigation_marks",
         oracle,
         strategy=strat_navigation,
-        budget={"quick": int(__import__("os").environ.get("C09_N", "50")), "thorough": 2000},
+        budget={"quick": 100, "thorough": 2000},
         known=KNOWN,
         rule="the same grammar plus da capo / fine / segno / dal segno / coda / to coda on bar lines, textbook arrangements (D.C. al fine, D.S. al fine, D.C. al coda, D.S. al coda) and arbitrary positions; permissive path predicate and all structural claims; non-trivial = every case (a navigation mark is present)",
         floors={"marks:arbitrary": 0.1, "marks:ds_al_coda": 0.05, "marks:inert_inside": 0.05},
@@ -953,7 +958,7 @@ SUBCHECKS = [
         "two_to_the_r_variants",
         oracle_variants,
         strategy=strat_variants,
-        budget={"quick": int(__import__("os").environ.get("C09_M", "25")), "thorough": 600},
+        budget={"quick": 25, "thorough": 600},
         known=KNOWN,
         rule="r = 0..4+ independent simple repeats; iter_unfolded_parts / make_score_variants must give exactly 2^r pairwise different variants = all subsets of repeats taken; non-trivial = r >= 2",
     ),
@@ -961,7 +966,7 @@ SUBCHECKS = [
         "no_repeats_equal_part",
         oracle_equal,
         strategy=lambda tier: _eq_case(tier),
-        budget={"quick": int(__import__("os").environ.get("C09_M", "40")), "thorough": 1500},
+        budget={"quick": 50, "thorough": 1500},
         known=KNOWN,
         rule="parts from the shared score generator (division/signature/clef changes, voices, chords, ties, tuplets, grace notes, added slurs) without any repeat structure; the unfolding must have an equal semantic fingerprint and the original must be untouched; non-trivial = >= 4 notes and a tie, tuplet or slur",
     ),
